@@ -69,4 +69,17 @@ META = {
         "trusted_base": ["dulwich GitFile raises FileLocked when <index>.lock exists", "asyncio.to_thread runs in a worker thread"],
         "not_decided": ["the set of interleavings actually possible", "cross-process behaviour beyond the index lock"],
     },
+    "C13": {
+        "explanation": "Interprocedural provenance (taint) analysis over a lattice of path shapes {SEG, SEG?, NORM, RELNORM, CONFIG, "
+                       "RAW_ABS, RAWN, RAW, FSPATH, STOREPATH}: sources are request.path/raw_path/url/match_info/environ and hrefs "
+                       "read from request bodies; normpath, the startswith('/') guard idiom, posixpath.join/split, lstrip('/') are "
+                       "modelled; parameters/fields/returns are joined over all resolved call sites to a fixed point. Obligations: "
+                       "(P1) every argument of _map_to_file_path is NORM|CONFIG and the component joined onto the root is relative; "
+                       "(P2) names joined onto a store directory are single segments and every relpath field is NORM; (P3) every "
+                       "os/shutil/open call of the web layer takes its path from P1's result, a store path or configuration. Every "
+                       "request-derived value is top until normalised, so what the front ends deliver for encoded dots is irrelevant.",
+        "trusted_base": ["posixpath.normpath of an absolute path has no '..' segment", "os.listdir / git tree entries are single segments",
+                         "dulwich's HTTP git backend for /.git/ URLs"],
+        "not_decided": ["symlinks inside the data directory", "behaviour of the dulwich wsgi chain under /.git/"],
+    },
 }
